@@ -117,8 +117,10 @@ def _cmp_table(w, t2, ref, meta, oracle, what):
 def c02_json(w, ev, slot):
     import biom
     from biom import Table
-    ref = slot.ref
-    t = slot.real
+    from .probes_io import with_caller_zero
+    src = with_caller_zero(w, slot, ev.get('salt', 0) // 7)
+    ref = src.ref
+    t = src.real
     a, b, c = ev.get('a', 0), ev.get('b', 0), ev.get('c', 0)
     weird = w.ctrl_md or w.alpha == 'ctrl'
     gen_by = WEIRD[b % len(WEIRD)] if weird else WEIRD[(b % 3) * 0]
@@ -128,7 +130,7 @@ def c02_json(w, ev, slot):
             'table_id': ref.table_id}
     if weird and c % 3 == 0:
         # header strings with quotes/backslashes: set on a copy (same layout)
-        t = slot.real.copy()
+        t = t.copy() if src is slot else t
         t.table_id = WEIRD[(c >> 2) % len(WEIRD)]
         t.type = WEIRD_TYPES[(c >> 1) % len(WEIRD_TYPES)]
         meta['table_id'] = t.table_id
